@@ -595,6 +595,9 @@ class Fn:
             somes = [x for x in src[1] if not (x[0] == 'agg' and str(x[1]).endswith('Option::None'))]
             if len(somes) == 1 and somes[0][0] == 'agg' and str(somes[0][1]).endswith('Option::Some') and somes[0][2]:
                 return somes[0][2][0]
+            if len(somes) == 1 and len(src[1]) > 1 and somes[0][0] == 'call':
+                # `None` merged with an Option-valued call (a spliced helper's `if c { return None } x.pop()`): viewed as Some it is the call's
+                return ('field', ('as', somes[0], 'Some'), '0', 'std::option::Option')
             return None
         if src[0] != 'call' or not src[2]:
             return None
@@ -844,6 +847,40 @@ class Fn:
            x.filter(p)   is Some  =>  x is Some
         (closure bodies are substituted; the derived atoms are normalised and expanded in turn)"""
         out = []
+        if depth > 0 and a and a[0] == 'bool' and a[1][0] == 'call' and getattr(self, 'program', None) is not None and a[1][1] in self.program.fns:
+            # a local predicate getter (`self.is_elapsed()` = `self.deadline <= SimTime::now()`): the fact it computes, with the
+            # arguments substituted
+            g = self.program.fns[a[1][1]]
+            if g is not self and g.kind in ('fn', 'assocfn') and len(g.blocks) <= 6 and g.local_ty(0) == 'bool' and len(a[1][2]) == g.argc:
+                rbs = g.return_blocks()
+                body = g.expr_local(0, rbs[0], 'T') if len(rbs) == 1 else None
+                if body is not None and not any(x[0] in ('phi', 'local', 'var') for x in walk(body)):
+                    args = a[1][2]
+
+                    def sub(t):
+                        if not isinstance(t, tuple) or not t:
+                            return t
+                        if t[0] == 'arg' and isinstance(t[1], int) and 1 <= t[1] <= len(args):
+                            return args[t[1] - 1]
+                        return tuple(sub(x) if isinstance(x, tuple) else x for x in t)
+                    b2 = atom_of(canon(sub(body)), ('eq', 1 if a[2] else 0))
+                    if b2 is not None and b2[0] in ('cmp', 'is', 'isnot'):
+                        b2 = untry(b2)
+                        out.append(b2)
+                        out.extend(self.derived_atoms(b2, depth - 1))
+            return out
+        if depth > 0 and a and a[0] == 'bool' and a[2] is True and a[1][0] == 'call' and a[1][1] == 'std::option::Option::is_some_and' and len(a[1][2]) == 2:
+            # x.is_some_and(p)  =>  x is Some, p((x as Some).0)
+            x, clo = a[1][2]
+            out.append(untry(('is', x, 'Some')))
+            body = self._beta(clo, [('field', ('as', x, 'Some'), '0', 'std::option::Option')], 80)
+            if body is not None:
+                b2 = atom_of(canon(body), ('eq', 1))
+                if b2 is not None:
+                    b2 = untry(b2)
+                    out.append(b2)
+                    out.extend(self.derived_atoms(b2, depth - 1))
+            return out
         if depth <= 0 or not (a and a[0] == 'is' and a[2] == 'Some' and a[1][0] == 'call' and len(a[1][2]) == 2):
             return out
         n = a[1][1]
@@ -1342,6 +1379,24 @@ class Program:
         self.name_map = {'adts': {}, 'fields': {}, 'variants': {}}
         if isinstance(base_all, dict) and base_all.get('adts'):
             loaded, self.name_map = _normalise_names(loaded, base_all['adts'])
+            # a static moved into a nested / enclosing module under the same name and type (`runtime::RNG` -> `runtime::rng::RNG`)
+            bf = base_all.get('fns', {})
+            cur_paths = {strip_generics(f['path']) for d in loaded for f in d['fns']} | {strip_generics(x['path']) for d in loaded for x in d['statics']}
+            sren = {}
+            for d in loaded:
+                for x in d['statics']:
+                    n = strip_generics(x['path'])
+                    if n in bf or '__CALLSITE' in n:
+                        continue
+                    body = next((f for f in d['fns'] if f.get('kind') == 'static' and strip_generics(f['path']) == n), None)
+                    sty = [body['body']['locals'][0]['ty']] if body else [x['ty']]
+                    ks = [k for k in bf if k not in cur_paths and k.rsplit('::', 1)[-1] == n.rsplit('::', 1)[-1] and bf[k] == sty
+                          and (n.rsplit('::', 1)[0].startswith(k.rsplit('::', 1)[0] + '::') or k.rsplit('::', 1)[0].startswith(n.rsplit('::', 1)[0] + '::'))]
+                    if len(ks) == 1:
+                        sren[n] = ks[0]
+            if sren and len(set(sren.values())) == len(sren):
+                loaded, _ = _apply_adt_renames(loaded, sren)
+                self.name_map['statics'] = sren
         for d in loaded:
             self.crates[d['crate']] = d
             for fj in d['fns']:
@@ -1369,6 +1424,7 @@ class Program:
             base = json.load(open(bp))
             self.baseline_callers = base.get('callers', {}) if isinstance(base, dict) and 'fns' in base else {}
             self.baseline_fp = base.get('fp', {}) if isinstance(base, dict) else {}
+            self.baseline_adts = base.get('adts') if isinstance(base, dict) else None
             if isinstance(base, dict) and 'fns' in base:
                 base = base['fns']
             if isinstance(base, list):
@@ -1890,6 +1946,26 @@ def apply_renames(P, base):
             cs = [f for f in new if fn_signature(f) == base[k] and len(base[k]) > 1 and module_of(parent(f.key)) == module_of(parent(k))
                   and old_callees <= _local_callees(P, f)
                   and any(f.key in _local_callees(P, P.fns[c]) for c in old_callers if c in P.fns)]
+        if not cs and len(base[k]) > 1:
+            # a type was split (`Harness` -> `Harness` + `Outcome`): a method keeps its name, module, result and other parameters, only its
+            # receiver is the NEW type; it still calls what the old one called and a pinned caller of the old method calls it now
+            def module_of2(key):
+                ps = key.split('::')
+                while len(ps) > 1 and (ps[-1][:1].isupper() or ps[-1].startswith('<')):
+                    ps = ps[:-1]
+                return '::'.join(ps)
+            badts = getattr(P, 'baseline_adts', None)
+            last = k.rsplit('::', 1)[-1]
+            old_callees = {c for c, callers in getattr(P, 'baseline_callers', {}).items() if k in callers and c in P.fns}
+            old_callers = set(getattr(P, 'baseline_callers', {}).get(k, []))
+            def is_new_type(f):
+                return badts is not None and f.self_adt and strip_generics(f.self_adt) not in badts
+            cs = [f for f in new if f.key.rsplit('::', 1)[-1] == last and not f.trait and is_new_type(f)
+                  and module_of2(parent(f.key)) == module_of2(parent(k))
+                  and len(fn_signature(f)) == len(base[k]) and fn_signature(f)[0] == base[k][0] and fn_signature(f)[2:] == base[k][2:]
+                  and old_callees <= _local_callees(P, f) | {c for g in P.fn_list if g.kind == 'closure' and g.root == f.key for c in _local_callees(P, g)}
+                  and any(f.key in _local_callees(P, P.fns[c]) or any(f.key in _local_callees(P, g) for g in P.fn_list if g.kind == 'closure' and g.root == c)
+                          for c in old_callers if c in P.fns)]
         if not cs:
             # second tier: same argument types, the return type was changed along with the name (Result<T, ()> -> Option<T> ...) —
             # only if the candidate still calls every pinned function the old one called (otherwise it is a new helper that took
